@@ -262,3 +262,24 @@ def c07_ledger(case, impl_case):
             if not near(got, want, max(abs(cash[t]), abs(cash[t - 1]))):
                 fails.append("%s date %d: cash moved by %r, ledger says %r" % (n.path, t, got, want))
     return fails
+
+
+# ---------------------------------------------------------------- C03
+def c03_index(case, impl_case):
+    """root of a finished backtest (market-value): price[0] = 100 and
+    price[t] x (value[t-1] + flows[t]) = price[t-1] x value[t]"""
+    fails = []
+    state = impl_case["steps"][-1]["state"]
+    root, nodes, _ = build_tree(state)
+    if root is None or root.f["flags"][2] == "T":
+        return fails
+    pr, val, fl = root.vals("hg_prices"), root.vals("hg_values"), root.vals("hg_flows")
+    if not near(pr[0], 100.0):
+        fails.append("index starts at %r" % pr[0])
+    for t in range(1, len(pr)):
+        base = val[t - 1] + fl[t]
+        if abs(base) < 1e-12:
+            continue
+        if not near(pr[t] * base, pr[t - 1] * val[t], pr[t - 1] * val[t]):
+            fails.append("date %d: price %r x (%r + %r) != %r x %r" % (t, pr[t], val[t - 1], fl[t], pr[t - 1], val[t]))
+    return fails
